@@ -571,6 +571,16 @@ class Prop:
                     sched.origin = None
             elif k == "gc":
                 gc.collect()
+            elif k == "sibling_touch":
+                # ANOTHER instance of the class brings a wildcard name into being first.
+                # Known finding K7: the observers of '*' on this object then never hear of
+                # the name (trait_added is sent to the first instance only); generated
+                # for the witness only
+                if cfg.get("allow_k7"):
+                    t = traits[op["t"] % len(traits)]
+                    other = cls()
+                    sut(setattr, other, t["name"], pool[op["v"] % len(pool)])
+                    del other
             elif k == "readd":
                 # the same definition once more, as an instance trait: every handler -
                 # static, decorated, dynamic - stays attached exactly once
